@@ -24,7 +24,7 @@ ASSUMPTIONS = [
     'failed commits are produced by a second data manager joined to the transaction that raises in tpc_begin / commit / '
     'tpc_vote, sorted before or after the ZODB connection, so the connection is interrupted after 0, some or all of its '
     'own begin/commit/vote steps; storage-level I/O failures are C05',
-    'multi-database: two databases, one group of two connections (harness multidb); persistent classes are not driven',
+    'multi-database: two databases, one group of two connections (harness multidb); persistent classes: C12 pclass only',
 ]
 
 CODES = ['modify0', 'modify1', 'add', 'add_explicit', 'detach0', 'commit', 'abort',
